@@ -26,8 +26,9 @@ green and needs something specific to manifest, with a demonstration. Round 1
 (one agent per property), round 2 (14 agents, told which sites were already
 taken and pointed at the less obvious corners), round 3 (14 agents, asked for
 two cooperating sites), round 4 (8 agents, history- or state-dependent
-changes) and round 5 (8 agents, population- and threshold-dependent changes)
-delivered %d changes that were
+changes), round 5 (8 agents, population- and threshold-dependent changes)
+and round 6 (8 agents, ownership / unsafe memory handling and the API-level
+wrappers) delivered %d changes that were
 kept; each was re-confirmed in a scratch worktree (`tools/confirm_mutant.sh`:
 suite passes with it, demo fails with it and passes without) and run against
 the checks (`tools/try_mutant.sh`). `/verif/seeded/<id>/` holds `patch.diff`
@@ -65,8 +66,25 @@ switches code paths on how many tasks are parked (8) and scans lists whose
 length no scenario exceeded (3); E2 now sweeps 1..12 parked tasks and 1..12
 extra streams / handles / 8 extra senders, and compares the results of the
 long churn histories with the model. Misses per round (first try): 10 of 40,
-10 of 27, 4 of 25, 5 of 11 (three of these five were reported by the check of a
-neighbouring property and only the own property's scenario set was extended).
+10 of 27, 4 of 25, 5 of 12, 5 of 15, 3 of 12 (in the last three rounds about
+half of these were reported by the check of a neighbouring property and only
+the own property's scenario set or attribution was extended). Six deliveries
+that repeated the site and mechanism of a stored seed were not kept twice.
+
+Two lessons about the machinery itself. (a) *A check that "catches" a seed may
+be alarming for the wrong reason*: two round-4 seeds were believed caught by
+C17 because the machinery had a false alarm of its own at that moment (section
+9); the full re-run of all seeds on the corrected machinery (`seed_regress.py`,
+every seed against the checks recorded for it, plus its own property's check)
+showed that C17 was silent, and led to the churn histories that start with a
+cycle in flight and to the growth probe. (b) *Findings can fall between
+checks*: E2 saw a use-after-free in a seeded change while running for C09 and
+reported nothing, because the signature belonged to C16 and C16 did not run
+histories. `own_gap` (kept in the history of this file's tools) re-ran every
+seed whose own property's check is silent and looked for findings of that
+property in the evidence of the checks that do catch it: none are left, i.e.
+where a seed is recorded under a neighbouring check, its effect within the
+bounds really is a violation of that neighbouring property.
 
 Seeds whose own property's oracle stays silent while another check fires are
 recorded as such (e.g. the C02 seeds manifest as loss/duplication within the
